@@ -2043,7 +2043,10 @@ int cif_value_parse_numb(cif_value_tp *n, UChar *text) {
 
         exp_start = pos;
         while ((text[pos] >= UCHAR_0) && (text[pos] <= UCHAR_9)) {
-            exponent = (int) ((exponent * 10) + (text[pos] - UCHAR_0));
+            /* saturate instead of overflowing: exponents this large are far outside the range of a double anyway */
+            if (exponent < 100000000) {
+                exponent = (int) ((exponent * 10) + (text[pos] - UCHAR_0));
+            }
             pos += 1;
         }
         if (pos <= exp_start) {
